@@ -422,7 +422,8 @@ class kMinPathErrorCycles(walkmodel.AbstractWalkModelDiGraph):
         non_empty_weights = []
         non_empty_slacks = []
         for walk, weight, slack in zip(solution["walks"], solution["weights"], solution["slacks"]):
-            if len(walk) > 1:
+            # for node-weighted input a single node is a genuine (weighted) walk; an empty one has no node at all
+            if len(walk) > (0 if self.flow_attr_origin == "node" else 1):
                 non_empty_walks.append(walk)
                 non_empty_weights.append(weight)
                 non_empty_slacks.append(slack)
